@@ -40,6 +40,14 @@ SIG_OVERWRITE = ("occupied-destination: a MoveResource was performed whose desti
 SIG_DROP = ("drop-stale-redo: undo(drop=True) forgot a change but left in the redo list an entry that depends on it; redoing "
             "that entry later acts on a tree in which its dependency was never made")
 
+SIG_RELOAD_NL = ("reload-newlines: a ChangeContents reloaded from the saved history (close / reopen) is undone or redone while "
+                 "the file holds a text WITHOUT any line break: its new File object takes the convention from that text (LF) "
+                 "and writes a CR LF / CR file back with LF line ends; the texts are equal, the bytes are not")
+
+SIG_NL_DRIFT = ("newline-drift: a client re-read the File object of a listed ChangeContents after ANOTHER File object had "
+                "rewritten the file with different line ends (which happens after an intermediate text without any line "
+                "break); the object adopted that convention and the undo writes the old text with it: texts equal, bytes not")
+
 LIMITS = [0, 1, 2, 3, 100]
 FAILING = ("reopen", "interrupted-partial", "bookkeeping", "limit", "empty-not-refused", "closure", "undo-raised", "redo-raised", "not-inverse",
            "replay", "refused-do-effect", "current-change", "step-not-reversible")
@@ -131,6 +139,19 @@ def reload_family(rng):
             else:
                 script.append(R)
         out.append((rng.choice(LIMITS), script, "reload"))
+    # half of the family on the LF tree (where a reload is invisible), half on the CR LF / CR tree
+    return [p + ("lf" if k % 2 else "crlf",) for k, p in enumerate(out)]
+
+
+def reread_probe(rng):
+    """ORACLE-ONLY stream (not in the Coq model, which has no File.newlines): a client that re-reads the files of every
+    listed change through the changes' own File objects before every operation"""
+    D = lambda x: ["do", x]
+    out = [(100, [D("EA"), D("NS"), ["undo", 0, False]], "reread-probe"),
+           (100, [D("EA"), D("LEAF"), D("EA"), ["undo", None, False], ["undo", None, False], ["undo", None, False]], "reread-probe"),
+           (100, [D("MF"), D("EB"), D("NS"), D("EB"), ["undo", 1, False], ["redo", None]], "reread-probe")]
+    for _ in range(8):
+        out.append((100, random_script(rng, False)[:14], "reread-probe"))
     return out
 
 
@@ -181,6 +202,7 @@ def judge(ses, replay_oracle=True):
     snaps = {}                    # id(object) -> (tree before its do, tree after, irreversible?)
     tainted = False
     dropped_paths = []            # paths of the changes forgotten by drop=True while the redo list was non-empty
+    reloaded = set()              # ids of the change objects that came back from a saved history
     ghosts = []                   # paths changed by performed but unrecorded (ignored-only) changes
     lowered = False               # the limit preference was lowered and no change has been recorded since
     prev_limit = ses.max_undos
@@ -196,13 +218,15 @@ def judge(ses, replay_oracle=True):
         if st.kind == "reopen":
             # History.write (trims to the limit, saves both lists) then _load_history: the same lists come back,
             # as new objects; nothing else changes
-            exp_undo = st.pre_undo[max(0, len(st.pre_undo) - limit_now):]
-            if st.post_undo != exp_undo or st.post_redo != st.pre_redo or st.post_tree != st.pre_tree:
+            def nonl(specs):            # the newline convention of a File object is not part of the saved history
+                return [L.strip_nl(x) for x in specs]
+            exp_undo = nonl(st.pre_undo[max(0, len(st.pre_undo) - limit_now):])
+            if nonl(st.post_undo) != exp_undo or nonl(st.post_redo) != nonl(st.pre_redo) or st.post_tree != st.pre_tree:
                 bad(idx, "reopen", "after closing and reopening the project the history is not the saved one: undo list "
                                    "%s, redo list %s, tree %s" % (
-                                       "same" if st.post_undo == exp_undo else "DIFFERS (%d entries, %d expected)" % (
+                                       "same" if nonl(st.post_undo) == exp_undo else "DIFFERS (%d entries, %d expected)" % (
                                            len(st.post_undo), len(exp_undo)),
-                                       "same" if st.post_redo == st.pre_redo else "DIFFERS (%d entries, %d expected)" % (
+                                       "same" if nonl(st.post_redo) == nonl(st.pre_redo) else "DIFFERS (%d entries, %d expected)" % (
                                            len(st.post_redo), len(st.pre_redo)),
                                        "same" if st.post_tree == st.pre_tree else "DIFFERS"))
                 tainted = True
@@ -210,6 +234,7 @@ def judge(ses, replay_oracle=True):
             old = st.pre_undo_objs[len(st.pre_undo_objs) - len(st.post_undo_objs):] + list(st.pre_redo_objs)
             new = list(st.post_undo_objs) + list(st.post_redo_objs)
             remap = {id(a): b for a, b in zip(old, new)}
+            reloaded = set(id(b) for b in new)
             in_force = [(remap.get(id(o), o), sp) for (o, sp) in in_force]
             for a, b in zip(old, new):
                 if id(a) in snaps:
@@ -301,7 +326,7 @@ def judge(ses, replay_oracle=True):
                 ids = set(id(o) for o in moved)
                 in_force = [(o, sp) for (o, sp) in in_force if id(o) not in ids]
             else:
-                in_force.extend((o, L10.abstract_change(o)) for o in moved)
+                in_force.extend((o, L.abstract(o)) for o in moved)
             if replay_oracle and not tainted:
                 info["replays"] += 1
                 exp, why = L.replay_tree(ses.tree, [sp for (_, sp) in in_force])
@@ -339,6 +364,29 @@ def judge(ses, replay_oracle=True):
         info["sel_steps"] += 1
         deps = list(st.deps or [])
         R = list(st.returned_objs or [])
+        def reload_nl(expected):
+            # the exact shape and the predicted failure of the reload-newlines finding
+            if expected is None:
+                return False
+            # reloaded ChangeContents leaves that are written while the file holds a text without a line break: an undo
+            # writes the old text over the new one, a redo the new text over the old one
+            hit = set(l[1].split("/")[-1] for o in R if id(o) in reloaded for l in L10.leaves(L.abstract(o))
+                      if l[0] == "CC" and "\n" not in ((l[2] if st.kind == "undo" else l[3]) or "\n"))
+            if not hit:
+                return False
+            diff = [p for p in set(expected) | set(st.post_tree) if expected.get(p, 0) != st.post_tree.get(p, 0)]
+            return bool(diff) and all(p.split("/")[-1] in hit and isinstance(expected.get(p), bytes) and isinstance(st.post_tree.get(p), bytes)
+                                      and L.conv(expected[p])[0] == L.conv(st.post_tree[p])[0] for p in diff)
+        def nl_drift(expected):
+            # oracle-only probe stream (the client re-reads every listed change's files before every step)
+            if expected is None or not getattr(ses, "reread_all", False):
+                return False
+            flat = set(l[1].split("/")[-1] for s2 in ses.steps if s2.kind == "do" and s2.change is not None
+                       for l in L10.leaves(s2.change) if l[0] == "CC" and "\n" not in l[2])
+            diff = [p for p in set(expected) | set(st.post_tree) if expected.get(p, 0) != st.post_tree.get(p, 0)]
+            return bool(diff) and all(p.split("/")[-1] in flat and isinstance(expected.get(p), bytes)
+                                      and isinstance(st.post_tree.get(p), bytes)
+                                      and L.conv(expected[p])[0] == L.conv(st.post_tree[p])[0] for p in diff)
         over_paths = [q for o in R for q in snaps.get(id(o), (0, 0, False, []))[3]]
         irrev_involved = bool(over_paths)
 
@@ -379,7 +427,7 @@ def judge(ses, replay_oracle=True):
             if st.drop and st.post_redo_objs:
                 dropped_paths.extend(p for j in deps for p in L.spec_paths(src_specs[j]))
         else:
-            in_force.extend((o, L10.abstract_change(o)) for o in R)
+            in_force.extend((o, L.abstract(o)) for o in R)
         if tainted:
             continue
         # an undo / redo must itself be exactly reversible (it found the contents / the free paths it expects)
@@ -395,6 +443,7 @@ def judge(ses, replay_oracle=True):
                 diff = sorted(p for p in set(pre) | set(st.post_tree) if pre.get(p, 0) != st.post_tree.get(p, 0))
                 bad(idx, "not-inverse", "the tree was as the change left it; after undo it is not as before the change "
                                         "(at %s)" % ", ".join(diff[:4]),
+                    SIG_RELOAD_NL if reload_nl(pre) else SIG_NL_DRIFT if nl_drift(pre) else
                     SIG_OVERWRITE if only_overwritten(diff) else (cls_hint if cls_hint != SIG_OVERWRITE else None))
                 tainted = True
             if st.kind == "redo" and st.pre_tree == pre and st.post_tree != post and not irr:
@@ -411,6 +460,7 @@ def judge(ses, replay_oracle=True):
                 diff = sorted(p for p in set(exp) | set(st.post_tree) if exp.get(p, 0) != st.post_tree.get(p, 0))
                 bad(idx, "replay", "after %s the tree differs from re-executing the %d changes still in force, at %s" % (
                     st.kind, len(in_force), ", ".join(diff[:6])),
+                    SIG_RELOAD_NL if reload_nl(exp) else SIG_NL_DRIFT if nl_drift(exp) else
                     cls_hint if (cls_hint != SIG_OVERWRITE or only_overwritten(diff)) else None)
                 tainted = True
         if tainted and info["tainted_at"] is None:
@@ -420,8 +470,9 @@ def judge(ses, replay_oracle=True):
 
 # ------------------------------------------------------------------------- running the sessions
 def _work(plan):
-    limit, script, _family = plan
-    ses = L.run_session(L.TREE0, limit, script)
+    limit, script, family = plan[:3]
+    ses = L.run_session(L.TREE_LF if (len(plan) > 3 and plan[3] == "lf") else L.TREE0, limit, script,
+                        reread_all=(family == "reread-probe"))
     verdicts, info = judge(ses, replay_oracle=True)
     return L.strip(ses), verdicts, info
 
@@ -441,11 +492,12 @@ def run_plans(plans):
 def _session_obj(ses, upto, verdict):
     return {"kind": "session", "tree": {p: (None if v is None else v) for p, v in ses.tree.items()},
             "limit": ses.limit, "script": L.concrete_script(ses)[:upto + 1], "step": upto,
+            "reread_all": bool(getattr(ses, "reread_all", False)),
             "verdict": verdict.kind, "observed": verdict.text, "class": verdict.cls}
 
 
-def _failing(tree, limit, script, cls=None):
-    ses = L.run_session(tree, limit, script)
+def _failing(tree, limit, script, cls=None, reread_all=False):
+    ses = L.run_session(tree, limit, script, reread_all=reread_all)
     vs, _ = judge(ses)
     vs = [v for v in vs if cls is None or v.cls == cls]
     return (ses, vs[0]) if vs else (None, None)
@@ -464,7 +516,7 @@ def shrink(obj):
             cand = script[:k] + script[k + 1:]
             if cand:
                 try:
-                    ses, v = _failing(tree, limit, cand, cls)
+                    ses, v = _failing(tree, limit, cand, cls, bool(obj.get("reread_all")))
                 except Exception:
                     ses, v = None, None
                 if v is not None:
@@ -482,7 +534,7 @@ def signature(obj):
 
 def replay(ctx, obj):
     if obj.get("kind") in ("session", "corpus"):
-        ses = L.run_session(obj["tree"], obj["limit"], obj["script"])
+        ses = L.run_session(obj["tree"], obj["limit"], obj["script"], reread_all=bool(obj.get("reread_all")))
         vs, _ = judge(ses)
         return bool(vs)
     if obj.get("kind") == "mismatch":
@@ -557,12 +609,13 @@ def run(ctx):
     depth = ctx.scale(4, 5)
     import os as _os
     # development aid: C11_SKIP_EXHAUSTIVE=1 leaves out the seed-independent exhaustive family (seed sweeps)
-    plans = catalogue() + stop_family() + reload_family(ctx.rng) + (
+    plans = catalogue() + stop_family() + reload_family(ctx.rng) + reread_probe(ctx.rng) + (
         [] if _os.environ.get("C11_SKIP_EXHAUSTIVE") == "1" else exhaustive_scripts(depth))
     n_rand = ctx.scale(120, 1500)
     for k in range(n_rand):
         quirks = (k % 3 == 2)
-        plans.append((ctx.rng.choice(LIMITS), random_script(ctx.rng, quirks), "random-quirks" if quirks else "random"))
+        plans.append((ctx.rng.choice(LIMITS), random_script(ctx.rng, quirks), "random-quirks" if quirks else "random",
+                      "lf" if k % 4 == 1 else "crlf"))
     n_cat = len(catalogue())
     reported = {}
     stats = [0, 0, 0, 0, 0]
@@ -580,7 +633,7 @@ def run(ctx):
         if c0 == 0:
             samples = sessions[:2]
         # ---- model
-        rep = [i for i, s in enumerate(sessions) if L.representable(s)]
+        rep = [i for i, s in enumerate(sessions) if L.representable(s) and fam[i] != "reread-probe"]
         ctx.count("sessions_unrepresentable", len(sessions) - len(rep))
         if bp is None:
             # the model runs with the EXPECTED dependency test (paths only, /repo ed5101e); the catalogue is also
@@ -605,6 +658,8 @@ def run(ctx):
         ctx.count("sessions_ending_in_behaviour_outside_the_model", len(arte))
         mism = [(i, w) for i, w in zip(rep, words) if w]
         mis_step = {i: describe(w)[0] for (i, w) in mism}
+        mis_word = dict(mism)
+        explained = set()
         # ---- oracle verdicts (computed next to the real run, on the live objects)
         for si, (ses, verdicts, info) in enumerate(results):
             nontrivial = info["selective_nonlifo"] > 0 or info["selective_multi"] > 0
@@ -625,7 +680,11 @@ def run(ctx):
                     ctx.count("template:%s" % st.letter)
             for v in verdicts[:1]:
                 ctx.count("oracle_verdict:%s" % v.kind)
-                if si in mis_step and mis_step[si] <= v.step and not v.cls.startswith("unexplained"):
+                if (v.cls == SIG_RELOAD_NL and mis_step.get(si) == v.step and (mis_word.get(si, 0) & 63) == 2):
+                    # the byte-level model has no File.newlines: it predicts the exact restore, the code deviates by the
+                    # line ends of exactly the files of the finding's shape (checked by the oracle) and by nothing else
+                    explained.add(si)
+                elif si in mis_step and mis_step[si] <= v.step and not v.cls.startswith("unexplained"):
                     # a failure is attributed to a known finding only where the model predicts the code's behaviour
                     v.cls = "unexplained:%s (the model does not predict the behaviour at step %d)" % (v.kind, mis_step[si])
                 key = v.cls
@@ -640,6 +699,8 @@ def run(ctx):
                     reported[key] = reported.get(key, 0) + 1
             if ctx.too_many(9):
                 break
+        mism = [(i, w) for (i, w) in mism if i not in explained]
+        ctx.count("line_end_only_mismatches_explained_by_reload_finding", len(explained))
         n_mism += len(mism)
         for (i, w) in mism[:3]:
             ses = sessions[i]
